@@ -718,6 +718,7 @@ class Interp:
         self.unroll_depth = 0
         self.fn_attrs = {}
         self._rebinds = {}
+        self.call_edges = {}      # (caller, id(call site node)) -> functions the site was seen to call
         self.ident_counter = 0
         self.partition_unknown = False
         self._mro_cache, self._fm_cache, self._sub_cache = {}, {}, {}
@@ -4121,8 +4122,7 @@ class Interp:
         bound, syms = self.bind_params(parent, fnnode, args, self_val)
         if bound is None:
             return BOT          # arity mismatch: a TypeError, not among the judged faults
-        if args.marker is not None and self_val is not None and False:
-            pass
+        self.call_edges.setdefault((fr.qual, id(node)), set()).add(q)
         if scope.has_yield:
             if 'contextlib.contextmanager' in self.decor.get(q, ()) or 'contextmanager' in self.decor.get(q, ()):
                 return av(('ctx', fnatom, tuple(sorted(bound.items())), fnatom[2] if fnatom[0] == 'clo' else 0))
